@@ -566,3 +566,74 @@ Definition trr_sched (recheck : bool) (head : Z) (lay : layout) (sizes : list Z)
 Definition trr_sched_pcs (recheck : bool) (head : Z) (lay : layout) (sizes : list Z) (fin : Z)
   : list trr_pc :=
   trr_pcs recheck head lay trr_m_init (trr_world sizes fin).
+
+(* ------------------------------------------------------------------ TRR: WHOSE data size?
+   The frames of one TRR file need not have the same data size: velocities and forces are
+   written every nstvout / nstfout steps, positions every nstxout steps, so a file can hold
+   frames with positions only, with positions + velocities, with positions + velocities +
+   forces in any pattern.  A [layout] is a list: every frame has its own (header, data) size,
+   and in [trr_observe] / [trr_step] the pending frame carries the data size [d] announced by
+   ITS OWN header - that is the code as it is,
+       self.data_size = sum(header[key] for key in TRR_DATA_ITEMS)      (for every header read)
+   and both guards, `size >= self.bytes_read + self.data_size` and
+   `getsize < self.bytes_read + self.data_size`, use it.
+
+   [trr_step_g dg] is the same loop with the two guards using [dg lay idx d] instead of [d];
+   the read itself is unchanged (get_data reads the blocks the header announces: [d] bytes),
+   so a read the guard lets through with fewer than [d] bytes on disk goes wrong (struct.error
+   on a short block / EOFError on an empty one, then a re-read from the middle of the frame):
+   TGarbage, [t_bad].  [own_size] gives back the loop as it is (proofs/ReadersTrrP.v:
+   trr_sched_g_own); [cached_size] is the variant "computed once, while data_size is still 0,
+   like the header size": the guard of frame idx uses the first non-zero data size among
+   frames 0..idx. *)
+Definition own_size (lay : layout) (idx : nat) (d : Z) : Z := d.
+
+Fixpoint cached_ds (lay : layout) (idx : nat) : Z :=
+  match lay with
+  | [] => 0
+  | (_, d) :: r => if d =? 0 then match idx with O => 0 | S i => cached_ds r i end else d
+  end.
+
+Definition cached_size (lay : layout) (idx : nat) (d : Z) : Z := cached_ds lay idx.
+
+Definition trr_observe_g (dg : layout -> nat -> Z -> Z) (head : Z) (lay : layout) (st : trr_state) (size : Z)
+  : trr_state * list trr_event :=
+  if t_bad st then (st, [])
+  else
+    match t_pend st with
+    | None => trr_observe head lay st size
+    | Some (idx, d) =>
+      if size >=? t_br st + dg lay idx d
+      then if t_br st + d <=? size
+           then (mkT (t_br st + d) (t_hs st) None false, [TReadData (t_br st) d size; TYield idx])
+           else (mkT (t_br st) (t_hs st) None true, [TGarbage (t_br st)])
+      else (st, [])
+    end.
+
+Definition trr_step_g (dg : layout -> nat -> Z -> Z) (head : Z) (lay : layout) (m : trr_m) (size : Z) (ended : bool)
+  : trr_m * list trr_event :=
+  let st := m_st m in
+  match m_pc m with
+  | PcDataSize =>
+    let '(st1, ev) := trr_observe_g dg head lay st size in
+    (mkM (match t_pend st1 with None => PcPoll | Some _ => PcGuardPoll end) st1, ev)
+  | PcGuardSize =>
+    match t_pend st with
+    | Some (idx, d) => (mkM (if size <? t_br st + dg lay idx d then PcDone else PcDataSize) st, [])
+    | None => (mkM PcDone st, [])
+    end
+  | _ => trr_step true head lay m size ended
+  end.
+
+Fixpoint trr_drive_g (dg : layout -> nat -> Z -> Z) (head : Z) (lay : layout) (m : trr_m) (obs : list (Z * bool))
+  : trr_m * list trr_event :=
+  match obs with
+  | [] => (m, [])
+  | (s, e) :: r => let '(m1, ev1) := trr_step_g dg head lay m s e in
+                   let '(m2, ev2) := trr_drive_g dg head lay m1 r in
+                   (m2, ev1 ++ ev2)
+  end.
+
+Definition trr_sched_g (dg : layout -> nat -> Z -> Z) (head : Z) (lay : layout) (sizes : list Z) (fin : Z)
+  : trr_m * list trr_event :=
+  trr_drive_g dg head lay trr_m_init (trr_world sizes fin).
